@@ -740,6 +740,12 @@ func (r *Relay) disconnected(n network.Network, c network.Conn) {
 	}
 
 	r.mx.Lock()
+	if n.Connectedness(p) == network.Connected {
+		// The peer has reconnected while this notification was waiting for the lock; it may
+		// already have made a new reservation over the new connection, which must not be dropped.
+		r.mx.Unlock()
+		return
+	}
 	_, ok := r.rsvp[p]
 	if ok {
 		delete(r.rsvp, p)
